@@ -41,7 +41,7 @@ SPECIFIC = {
  'C13': ("Proved: decode's outcome and record are functions of the first item only (dec_ok/dec_post mention only item_raw(buf, hdr)); on Ok the buffer is advanced by exactly item_total.",
          "Lists/streams of records follow from this contract plus alloy-rlp's assumed Vec<T> decoder."),
  'C14': ("Proved: each typed getter (ip4, ip6, tcp4, tcp6, udp4, udp6, id, get_raw_rlp, get_decodable, get) is a stated function of the raw stored value; setters/builder methods store rlp_uint(port)/rlp_str(octets) which read back (lemma_port_stored, lemma_ip*_stored); sockets/reachability are exactly the combination of the same family's ip and port accessors.",
-         "client_info is verified for panic-freedom only (Vec<Bytes> decoding is an abstract contract); u16 codec of alloy-rlp assumed."),
+         "client_info reports a value exactly when the raw value is an RLP list of two or three strings and then exactly those strings (lossy UTF-8), and what set_client_info / Builder::client_info store reads back as the strings given (lemma_client_reads_back); this rests on the ASSUMED contract T15 of alloy-rlp's Vec<Bytes> decoder (list of string items; a Kani cross-check of it did not run to completion) and T16 (lossy decoding of valid UTF-8 is the identity). u16 codec of alloy-rlp assumed."),
  'C15': ("Proved: == is exactly equality of (seq, node id, signature) -- an equivalence relation by construction; clone is observationally identical; compare_content == (content_rlp(a) == content_rlp(b)); content_rlp is injective on valid content (lemma_content_rlp_injective); re-encode/decode image equal via C04.",
          "Hash for Enr feeds the hasher exactly (seq, node id, signature), the triple == compares, so equal records hash equally for every Hasher (ghost trace hasher_fed/hash_tok; that Vec<u8>, u64 and NodeId feed a function of their value is assumed). 'equal records carry identical pairs' needs signature unforgeability."),
  'C16': ("Proved (Verus, unbounded): parse Ok <==> len == 32 and Ok(id).raw == input; new/raw/From/AsRef/PartialEq identities. Kani function contract on the real NodeId::parse (slices <= 64 bytes, bounded) and a full-domain identity harness over all 32-byte values.",
